@@ -222,7 +222,7 @@ let user_wins k c tag (d : string) =
     let num k' = match pget c k' with Some v -> Some (strtol_c v) | None -> None in
     (match num "flags" with Some v -> chk 0 "flags" (Printf.sprintf "%x" (v land 0xffffffff)) | None -> ());
     (match num "timeoutms" with Some v when v > 0 -> chk 13 "timeout" (string_of_int v) | _ -> ());
-    (match num "timeout" with Some v when v > 0 && pget c "timeoutms" = None -> chk 13 "timeout" (string_of_int (((v land 0xffffffff) * 1000) land 0xffffffff)) | _ -> ());
+    (match num "timeout" with Some v when v > 0 && pget c "timeoutms" = None -> chk 13 "timeout" (string_of_int (if v > 2147483 then 2147483647 else v * 1000)) | _ -> ());
     (match num "tries" with Some v when v > 0 -> chk 2 "tries" (string_of_int v) | _ -> ());
     (match num "ndots" with Some v when v >= 0 -> chk 3 "ndots" (string_of_int v) | _ -> ());
     (match num "maxtimeout" with Some v when v > 0 -> chk 20 "maxtimeout" (string_of_int v) | _ -> ());
